@@ -59,6 +59,9 @@ TRANSLATORS = [
     ('translate_ptr.py', 'PtrTables', 'ptr', 'Proofs/PointerSrc.v'),
     ('translate_map.py', 'MapTables', 'map', 'Proofs/MapSrc.v'),
     ('translate_ser.py', 'SerTables', 'ser', 'Proofs/SerSrc.v'),
+    ('translate_numparse.py', 'NumParseTables', 'numparse', 'Proofs/NumParseSrc.v'),
+    ('translate_vser.py', 'VserTables', 'vser', 'Proofs/VserSrc.v'),
+    ('translate_vacc.py', 'VaccTables', 'vacc', 'Proofs/VaccSrc.v'),
 ]
 TRANSLATORS = [t for t in TRANSLATORS if os.path.exists(os.path.join(VERIF, 'tools', t[0]))]
 
@@ -341,7 +344,7 @@ SER_PROPS = ('C03', 'C04', 'C05', 'C13', 'C15', 'C16')
 LEX_PROPS = ('C07', 'C04', 'C16', 'C01', 'C02')
 INDEPENDENT = ('C17', 'C18')          # Map / pointer / macro developments use none of the tables of tools/translate.py
 PARSER_PROPS = ('C01', 'C02', 'C09', 'C10', 'C11', 'C12', 'C13', 'C14', 'C19')
-TAG_PROPS = {'fmt': SER_PROPS, 'keys': SER_PROPS, 'ser': SER_PROPS, 'vser': ('C15', 'C03'), 'num': ('C06', 'C18', 'C20'), 'eq': ('C18',), 'ptr': ('C18',), 'map': ('C17',),
+TAG_PROPS = {'fmt': SER_PROPS, 'keys': SER_PROPS, 'ser': SER_PROPS, 'vser': ('C15', 'C03'), 'num': ('C06', 'C18', 'C20'), 'eq': ('C18',), 'ptr': ('C18',), 'vacc': ('C18',), 'map': ('C17',),
              'scan': ('C20', 'C06') + PARSER_PROPS, 'cursor': PARSER_PROPS, 'ignore': PARSER_PROPS, 'de': PARSER_PROPS + ('C04', 'C06', 'C16'),
              'numparse': PARSER_PROPS + ('C06', 'C08'), 'str': PARSER_PROPS + ('C05',), 'vde': ('C16', 'C06')}
 
